@@ -24,6 +24,7 @@ import ScalesModel.Adapter.TimerQueue
 import ScalesModel.Adapter.MuxCodec
 import ScalesModel.Adapter.ThriftCodec
 import ScalesModel.Adapter.Serial
+import ScalesModel.Adapter.SerialC02
 import ScalesModel.Adapter.MuxT
 import ScalesModel.Adapter.Watermark
 import ScalesModel.Adapter.ServerSet
@@ -49,6 +50,7 @@ def components : List Comp := [
   ⟨"muxcodec", Scales.MuxCodec.comp.run⟩,
   ⟨"thriftcodec", Scales.ThriftCodec.comp.run⟩,
   ⟨"serial", Scales.Serial.comp.run⟩,
+  ⟨"serial2", Scales.SerialC02.comp.run⟩,
   ⟨"muxt", Scales.MuxT.comp.run⟩,
   ⟨"watermark", Scales.Watermark.comp.run⟩,
   ⟨"serverset", Scales.ServerSet.comp.run⟩
